@@ -3,9 +3,36 @@
 import json
 TECH = "SMT-based bounded symbolic execution of go/ssa (z3 4.8.12 / 5.1.0), counterexamples replayed natively"
 claimed = {
+ "C03": dict(level="model_checking",
+   text="Lock-step bisimulation of a Go-backed and a C-backed array (ghost C buffer of exactly Product(dims) elements: every out-of-buffer access is a failed obligation; natively red zones) under stepped Slice, Get/Set, Unroll, Contiguous, Maximum/Minimum, Apply, ApplySlice and CopyFrom across back-ends, Reshape/ReshapeFast incl. aliasing behaviour; rank 2, extents <= 3, symbolic positions/steps/values, all 8 element types. Plus every catalogued wrapper (38 of 41 with their real kernel) run on C-backed input/parameter/state/output buffers vs Go-backed arrays.",
+   ref="§4 C03", note="the cgo calling convention of RunSingleModel itself is not encoded (FFI); Go int/uint map to 32-bit C.int/C.uint: element values are taken in the 32-bit range; Sacramento, Storage, ClimateVariables wrappers not exercised with their kernels"),
+ "C04": dict(level="model_checking",
+   text="For every catalogued model (names read from the generated wrappers of the current tree; 38 of 41 with their real kernel): vectorised Run of 2-4 cells with 2-3 parameter sets and 1-3 input blocks (equal, fewer, coprime, decoupled), 1-2 timesteps, exact-size and oversized caller-owned output arrays, all data symbolic: each cell's outputs and final states equal a fresh single-cell run on its own parameter column / state row / input block; inputs and parameters bit-identical afterwards; no cell outside the run written. Table-valued parameters with per-cell lengths (RatingCurvePartition).",
+   ref="§4 C04", note="kernel panics are assumed away (wrapper, array library and sim panics are obligations); GR4J x4 and Lag lag fixed per parameter set; Sacramento, Storage, ClimateVariables kernels are outside the executor's reach and their wrappers are not exercised"),
+ "C05": dict(level="model_checking",
+   text="Two-thread reduction over recorded footprints: every memory access of the goroutine-per-cell Run of each catalogued model (3 cells; 4 thorough) is logged per goroutine instance; obligation: no cell of an object a goroutine did not allocate is written by one instance and accessed by another or by the spawner before the join - which covers every interleaving; one goroutine per cell and join balance. Counterexamples are replayed under the Go race detector.",
+   ref="§4 C05", note="ow-sim's goroutine-per-model generation and the asynchronous writer are NOT covered (see DESIGN §5); channel operations and map reads are not logged; 38 of 41 wrappers"),
+ "C06": dict(level="model_checking",
+   text="Kernel level: T=3 in one call vs every split (1+2, 2+1, 1+1+1) carrying returned states for Simhyd, Surm, Muskingum, Lag (lag 0-3), and T=2 vs 1+1 for GR4J (two x4 cases), lumped transport, constituent decay, coarse sediment: outputs and final states equal. State packing: extract(pack(s)) = s for GR4J (all UH lengths) and Lag. StorageRouting: a continued segment is exactly the step function applied to the carried storage/outflow.",
+   ref="§4 C06", note="R-model; Sacramento's unit-hydrograph buffer (not part of its state vector) and the Storage model are not covered; StorageRouting index-flow guess affects results within the solver tolerance only (C11)"),
+ "C08": dict(level="model_checking",
+   text="Selection arithmetic for ALL extents/start/stop/step up to 1e6 (count = number of indices start+k*step below min(stop,extent), hyperslab denotes exactly that set). Against an in-memory model of the HDF5 library (hyperslab semantics per the HDF5 definition): Write/Load round trip for contiguous and stepped sources, Load with [start,stop,step] selections equals the in-memory slice, WriteSlice changes exactly the block, Create on an existing dataset leaves contents / refuses another shape; 8 element types, rank <= 2, extents <= 3. Lock discipline: every call from the repository into the library happens with the package lock held, writes with the write lock (engine-observed at the library boundary on every executed path).",
+   ref="§4 C08", note="libhdf5 itself is absent from the image and replaced by /verif/stubs/hdf5 (stated environment model); real files, concurrency between callers and text datasets not covered"),
+ "C13": dict(level="model_checking",
+   text="Storage model, one daily timestep: (a) water balance with the reported rainfall/evaporation volumes proved with table look-ups abstracted to uninterpreted functions (hence for any table), sub-stepping loops cut after 2 iterations; (b) on three fixed table sets (2-point, 3-point [thorough], small pool behind a large spillway) with symbolic inflow/demand/rain/PET/initial volume: volume >= 0, outflow >= 0, reported volumes >= 0, final level/area = table(final volume), release bounds; balance and the model's own panics as 30 s counterexample searches.",
+   ref="§4 C13", note="R-model; steps needing more than one (2 for (a)) sub-step refinement are outside the claim; tables are fixed in (b); the known crash when net evaporation exceeds the remaining volume on a table with area > 0 at empty is outside the bounded paths (DESIGN §6)"),
+ "C14": dict(level="model_checking",
+   text="For every catalogued model (38 of 41 with real kernels), 2 cells x 3 timesteps, all data symbolic: same object run again, fresh object, and same object after another model ran give identical outputs and final states; no package-level variable is written during Run (engine-observed); for every k, replacing the inputs after step k by fresh symbols or truncating the series leaves outputs up to k unchanged.",
+   ref="§4 C14", note="bit-identity is term identity in the R-model (rounding outside); heavy kernels skipped as in C04"),
+ "C15": dict(level="model_checking",
+   text="One day of the real gr4j from an arbitrary common state equals an independent transcription of Perrin et al. (2003) (S-curves with exponent 5/2, ordinates by differencing, production/percolation, 90/10 split, exchange, routing store, direct branch) for x4 in {0.5, 0.75, 1, 1.5, 2, 2.5, 3.5, 4} (+3, 1.2 thorough); x1, x2, x3, both stores, both UH buffers, rain and PET symbolic.",
+   ref="§4 C15", note="x4 is fixed per harness (it sets array lengths); non-linear sub-expressions of the reference are written in the model's algebraic form, pow of constants folded to the float64 library value; undecided obligations are additionally probed natively"),
+ "C17": dict(level="model_checking",
+   text="The real RunSingleModelJSON with the JSON codec replaced by an environment stub (request struct in, response struct out; natively the real codec): any subset/order/superset of parameters and inputs, series length 1-2: exactly one document, outputs/states equal a direct run with defaults and zeros, one log entry per default/missing input; malformed request, unknown/empty model, no inputs, unequal lengths: one document, no crash. JsonSafeValue in the IEEE model (NaN/+Inf/-Inf strings, finite unchanged), overflowed states in both output modes, JsonSafeArray nesting for contiguous and stepped views of rank 1-3.",
+   ref="§4 C17", note="encoding/json itself (arbitrary byte strings) is not encoded; the model is a small one registered by the harness because package sim cannot import the model packages"),
  "C10": dict(level="model_checking",
-   text="Exact-real (R-model) one-step induction from an arbitrary state inside the stated store invariant, plus two-step direct runs from the zero state, for RunoffCoefficient, Simhyd and Surm: outputs >= 0, runoff = quick + base, stores within [0, capacity] (so the invariant is inductive and covers series of any length), per-step budget runoff + Phi(state') <= rain + Phi(state) whose telescoped sum is the cumulative claim. exp() by contract.",
-   ref="§4 C10", note="float64 modelled as exact reals (rounding/overflow/NaN outside the claim); parameters: fractions in [0,1], capacities > 0; GR4J and Sacramento are NOT yet covered by this check (see DESIGN §5)"),
+   text="Exact-real (R-model) one-step induction from an arbitrary state inside the stated store invariant, plus two-step direct runs from the zero state, for RunoffCoefficient, Simhyd and Surm (and a bounded Sacramento step): outputs >= 0, runoff = quick + base, stores within [0, capacity] (so the invariant is inductive and covers series of any length), per-step budget runoff + Phi(state') <= rain + Phi(state) whose telescoped sum is the cumulative claim. exp() by contract.",
+   ref="§4 C10", note="float64 modelled as exact reals (rounding/overflow/NaN outside the claim); parameters: fractions in [0,1], capacities > 0; Sacramento: one bounded step (single-increment storms) with runoff/baseflow >= 0 and component sum proved, baseflow <= runoff and surface >= 0 as counterexample searches; GR4J bounds/closure only in the thorough tier and largely undecided by the solver"),
  "C11": dict(level="model_checking",
    text="Muskingum: two-step recurrence with independently transcribed weights on total (upstream+lateral) inflow, continuity of S=K(XI+(1-X)O), steady state fixed point, for all K,X,dt in the stable region. Lag: every lag and series length in [0,4]^2 ([0,7]^2 thorough) with symbolic values. StorageRouting: one timestep (the real calcOutflow/runRouting) from an arbitrary previous storage for bias 0 and m in {1, 1/2, symbolic in (0,1]}: every exit path: outflow,storage >= 0, water balance within 2*massBalanceLimit, S = kQ+dead for uncapped outflow; fn.FindRoot replaced by its C18 contract.",
    ref="§4 C11", note="R-model; FindRoot convergence within the iteration budget is assumed at its call site; non-zero inflow bias not covered; known finding C11-flux-capped-exit"),
@@ -29,6 +56,9 @@ claimed = {
    ref="§4 C19", note="ints=math (no wrap-around; year bounded by 1e9 so no overflow), float64<->int conversions exact; go/ssa lowering, z3"),
 }
 not_applicable = {
+ "C07": "ow-sim's run_simulation (package main, flags, os/exec writer process, real-time sleeps, goroutine hand-off with the asynchronous writer) is not encoded; the pieces it is built from are covered under C04/C05 (wrappers), C08 (HDF5 references) and C02 (AddTo); see DESIGN §5",
+ "C09": "byte-for-byte equality of generated files with generator output is a regenerate-and-diff over concrete files: there is no symbolic quantity for a solver to decide; see DESIGN §5",
+ "C20": "the physical orderings depend on numeric values of log10/10^x/exp for which no solver in the image has a usable theory; the 40-step wet-bulb bisection over those contracts is beyond the executor's budget; see DESIGN §5",
 }
 pending = "check not built yet in this session; see DESIGN.md §9 for the build order"
 allp = [json.loads(l)["id"] for l in open("properties.jsonl")]
